@@ -203,6 +203,16 @@ def cases(shard, nshards, seed, tier):
         for how in ("bpseq", "dbn-fcfs-levels", "dbn-levels-raised", "dbn-own-notation"):
             if mine():
                 yield {"family": "cli-motif-extractor", "name": name, "n": n, "pairs": pairs, "input": how}
+    # elements as the annotator reports them for 3D structures (Structure2D): strands against the reported per-strand
+    # notation, with and without gap placeholders
+    from vmon import gen3d
+
+    for fn in [f for f in gen3d.corpus_files() if f.endswith(("1E7K_1_C.cif", "1ehz-assembly-1.cif", "488d.pdb", "4qln.cif", "4WTI_1_T-P.cif", "6g90_1.cif"))]:
+        for gaps in (False, True):
+            if fn.endswith("6g90_1.cif") and tier == "quick" and not gaps:
+                continue
+            if mine():
+                yield {"family": "from-3d", "file": fn, "gaps": gaps, "n": 0, "pairs": []}
     # multiloop-rich: random non-crossing matchings
     nml = 500 if tier == "quick" else 10000
     for i in range(nml):
@@ -328,8 +338,36 @@ def _cli(case, rec, n, pairs):
         shutil.rmtree(d, ignore_errors=True)
 
 
+def _from_3d(case, rec):
+    from rnapolis import annotator
+    from vmon import gen3d
+
+    s = gen3d.load(case["file"])
+    det = lambda extra=None: {"file": case["file"], "gaps": case["gaps"], "info": extra}
+    try:
+        s2d, _ = annotator.extract_secondary_structure(s, None, case["gaps"])
+    except Exception as e:
+        rec.violation("from3d.no-crash", det(repr(e)[:300]), mechanism=f"crash:{type(e).__name__}")
+        return
+    lines = [l for l in s2d.dotBracket.split("\n") if l and not l.startswith(">")]
+    seq, text = "".join(lines[0::2]), "".join(lines[1::2])
+    ent = [l.split() for l in s2d.bpseq.splitlines()]
+    pairs = sorted((int(a), int(c)) for a, b, c in ent if int(c) and int(a) < int(c))
+    rec.mark_nontrivial(bool(pairs))
+    dec, why = o2d.decode(text)
+    rec.check("from3d.notation-encodes-the-bpseq", seq == "".join(b for a, b, c in ent) and dec is not None and set(dec) == set(pairs), lambda: det({"why": why, "notation": text[:200], "bpseq-sequence": "".join(b for a, b, c in ent)[:200]}))
+    bad = None
+    for t in _all_strands((s2d.stems, s2d.singleStrands, s2d.hairpins, s2d.loops)):
+        if t.sequence != seq[t.first - 1 : t.last] or t.structure != text[t.first - 1 : t.last]:
+            bad = (t.first, t.last, t.sequence, t.structure, seq[t.first - 1 : t.last], text[t.first - 1 : t.last])
+            break
+    rec.check("from3d.strands-are-slices-of-the-reported-notation", bad is None, lambda: det({"strand": bad}))
+
+
 def run_case(case, rec):
     n, pairs = case["n"], [tuple(p) for p in case["pairs"]]
+    if case["family"] == "from-3d":
+        return _from_3d(case, rec)
     if case["family"] == "cli-motif-extractor":
         rec.mark_nontrivial(len(pairs) > 0)
         _cli(case, rec, n, pairs)
